@@ -4,7 +4,7 @@
 EXTENDS MC_TtxAssembly, Json
 VARIABLE hist
 gvars == <<vars, hist>>
-gview == <<mode, open, lastm, cache, latest, npk>>
+gview == <<mode, open, lastm, cache, latest, nfault, npk>>
 GInit == Init /\ hist = <<>>
 RowList(f) == [k \in 1..24 |-> IF k \in DOMAIN f THEN f[k] ELSE 0]
 TermOut == [i \in 1..Len(term') |-> [pg |-> term'[i].pg, sub |-> term'[i].sub, nat |-> term'[i].nat,
